@@ -566,12 +566,15 @@ class BRun:
 
 
 def _stalls(c, key):
-    """(short, long) waits derived from the slowest single operation of the sequential run: `short` decides that B is
-    blocked while A is parked (a wrong guess only means that A and B then really run side by side), `long` that B or A
-    never finishes once nothing is parked any more"""
+    """(short, long) waits derived from the slowest single operation of the sequential run.
+    `short` decides that B is blocked while A is parked: a wrong guess is harmless (A and B then really run side by side).
+    `long` decides that B or A NEVER finishes although nothing is parked any more: generous (operations that do finish
+    finish at once, so it costs nothing) and shortened only on evidence, i.e. after this process has already seen
+    operations blocked for ever with the generous wait."""
     mx = c.expected[key][2]
-    short = min(1.0, max(0.25, 10 * mx)) if _ADAPT["blocked"] < 3 else min(0.3, max(0.08, 5 * mx))
-    return short, min(6.0, max(3.0, 60 * mx)) if _ADAPT["blocked"] < 6 else min(3.0, max(1.0, 25 * mx))
+    short = max(0.25, 10 * mx) if _ADAPT["blocked"] < 3 else max(0.08, 5 * mx)
+    w = _ADAPT["wedged"]
+    return short, max(30.0, 200 * mx) if w == 0 else max(3.0, 60 * mx) if w == 1 else max(1.0, 25 * mx)
 
 
 def _peek(c, obj, loc):
@@ -682,7 +685,7 @@ def _point1(task):
     obj = _make(c, mode)
     aop = _a_op(c, mode)
     P = sched.Preempter(lambda: aop(obj), _codes(c, mode), obj, idx, opcode, c.libdir if deep else None)
-    stopped = P.run_to_stop(max(20.0, long_))
+    stopped = P.run_to_stop(long_)
     blocked, who = 0, []
     # (K is the event count of a sequential run.  A run may take a few events more or less when the code keeps
     #  history-dependent state, e.g. a cache: then A is simply stopped a little earlier/later, or is already through.)
@@ -698,7 +701,7 @@ def _point1(task):
     B = BRun(c, ops, obj)
     if not B.wait(short if stopped else long_):
         blocked = 1                                 # B does not get on while A is parked (or A hangs)
-    a_done = P.run_to_end(long_ if blocked else max(20.0, long_))      # thread A is never left parked
+    a_done = P.run_to_end(long_)                    # thread A is never left parked
     if blocked:
         _ADAPT["blocked"] += 1
         if not B.wait(long_):
@@ -720,6 +723,8 @@ def _point1(task):
     got2 = B2.results()
     fbad += [ops[i][0] for i in range(len(ops)) if got2[i] not in exp[i]]
     fin = _peek(c, obj, None)
+    if blocked == 2:
+        _ADAPT["wedged"] += 1
     return _event(c, task, loc_len=L, loc_ok=loc_ok,
                   pub_len=before["len"], pub_ok=before["ok"], same=before["same"], z1=before["z1"], co_ok=before["co_ok"],
                   b_len=after["len"], b_ok=after["ok"], b_z1=after["z1"], b_co_ok=after["co_ok"],
@@ -740,15 +745,15 @@ def _interrupted(c, task):
     ops = _ops(c, mode, full)
     key, (exp, expA, _) = _expect(c, mode, full, ops)
     short, long_ = _stalls(c, key)
-    blocked, who = 0, []
+    blocked, who, counted = 0, [], False
     lineno, where, stopped, loc = 0, "", False, None
-    a_wait = long_ if _ADAPT["blocked"] < 2 else max(1.0, short * 4)
+    a_wait = long_
     if _ADAPT["wedged"] >= 2 and mode != "scale":
         # Several abandoned operations in this process have left the library in a state in which later operations on
         # FRESH objects never finish.  Is it still so?  Then this event is the same observation (B on a fresh object is
         # blocked for ever) and is recorded as such without waiting for yet another set of timeouts.
         probe = BRun(c, ops, _make(c, mode))
-        if not probe.wait(max(0.3, short)):
+        if not probe.wait(min(5.0, max(0.5, 20 * c.expected[key][2]))):
             z = _peek(c, _make(c, mode), None)
             return _event(c, task, loc_len=0, loc_ok=True, pub_len=0, pub_ok=True, same=False, z1=z["z1"], co_ok=z["co_ok"],
                           b_len=0, b_ok=True, b_z1=z["z1"], b_co_ok=z["co_ok"], res=len(ops), res_bad=len(ops), blocked=2,
@@ -778,7 +783,6 @@ def _interrupted(c, task):
         P.run_to_stop(a_wait)
         if P.hung:
             blocked, who = 2, ["A"]                 # A neither got to the event nor finished (e.g. waits for a lock)
-            _ADAPT["blocked"] += 1
         stopped = P.stopped
         lineno, where = P.lineno, P.where
         a_exc = type(P.error).__name__ if P.error is not None else ""
@@ -792,23 +796,24 @@ def _interrupted(c, task):
         L, loc_ok = 0, False
     before = _peek(c, obj, loc)
     B = BRun(c, ops, obj)
-    if not B.wait(long_ if _ADAPT["blocked"] < 3 else short * 4):
+    if not B.wait(long_):
         blocked = 2
         who.append("B on the same object" if kind == "intr" else "B on a fresh generator")
-        _ADAPT["blocked"] += 1
+        _ADAPT["wedged"] += 1
+        counted = True
+        short, long_ = _stalls(c, key)
     got = B.results()
     bad = [ops[i][0] for i in range(len(ops)) if got[i] not in exp[i]]
     after = _peek(c, obj, loc)
     fresh = _make(c, mode)
     B2 = BRun(c, ops, fresh)
-    if not B2.wait(long_ if _ADAPT["blocked"] < 3 else short * 4):
+    if not B2.wait(long_):
         blocked = 2
         who.append("B on a fresh object")
-        _ADAPT["blocked"] += 1
     got2 = B2.results()
     fbad = [ops[i][0] for i in range(len(ops)) if got2[i] not in exp[i]]
     fin = _peek(c, fresh, None)
-    if blocked == 2:
+    if blocked == 2 and not counted:
         _ADAPT["wedged"] += 1
     return _event(c, task, loc_len=L, loc_ok=loc_ok,
                   pub_len=before["len"], pub_ok=before["ok"], same=before["same"], z1=before["z1"], co_ok=before["co_ok"],
